@@ -389,6 +389,62 @@ def plus_identity_case(ctx, kind='spin', conserve=None, L=3, D=3, cplx=True, swa
     ctx.prove_eq(F.mpo_dense_of(A.H), dA, 'plus_identity: operand represents the same operator afterwards')
 
 
+_PI_TERMS = {
+    # every set has a coupling of range >= 2 that passes THROUGH an interior site, a nearest-neighbour coupling and an on-site term
+    'spin3': ([[('Sz', 0), ('Sz', 2)], [('Sp', 0), ('Sm', 1)], [('Sm', 1), ('Sp', 2)], [('Sz', 1)], [('Sx', 0), ('Sz', 1), ('Sx', 2)]],
+              [0.5, 2., 0.75, 3., 1.5]),
+    'spin4': ([[('Sz', 0), ('Sz', 3)], [('Sp', 1), ('Sm', 3)], [('Sm', 0), ('Sp', 2)], [('Sz', 1), ('Sz', 2)], [('Sz', 2)],
+               [('Sx', 0), ('Sx', 3)]], [1.5, 0.5, 0.75, 2., 3., 0.25]),
+    'fermion3': ([[('Cd', 0), ('C', 2)], [('Cd', 2), ('C', 0)], [('Cd', 0), ('C', 1)], [('N', 1)], [('N', 0), ('N', 2)]],
+                 [0.5, 0.5, 2., 3., 0.75]),
+    'fermion4': ([[('Cd', 0), ('C', 3)], [('Cd', 3), ('C', 1)], [('N', 1), ('N', 2)], [('N', 0), ('N', 3)], [('N', 2)]],
+                 [1.5, 0.5, 2., 0.75, 3.]),
+}
+
+
+def plus_identity_termlist_case(ctx, termset='spin3', kind='spin', conserve=None, where=(1, ), sym_strengths=False, cplx_ab=True):
+    """plus_identity(alpha, beta, sites) of an MPO with couplings of range >= 2 passing through the modified sites:
+    dense == alpha 1 + beta sum_k strength_k term_k (own Jordan-Wigner products); alpha, beta symbolic; the strengths are exactly
+    representable constants (or symbols with sym_strengths)"""
+    from tenpy.networks.terms import TermList
+    from tenpy.networks.mpo import MPOGraph
+    terms, vals = _PI_TERMS[termset]
+    terms = [list(map(tuple, t)) for t in terms]
+    L = 1 + max(i for t in terms for _, i in t)
+    sites = _sites(kind, conserve, L)
+    if sym_strengths:
+        st = [ctx.real(f's{k}') for k in range(len(terms))]
+        arr = np.empty(len(st), dtype=object if ctx.symbolic else float)
+        for k, x in enumerate(st):
+            arr[k] = x
+    else:
+        st = list(vals)
+        arr = np.array(vals, dtype=float)
+    H = MPOGraph.from_term_list(TermList([list(t) for t in terms], arr), sites, 'finite').build_MPO()
+    ctx.note('mpo_chi_max', int(max(H.chi)))
+    tables = [F.own_ops(s) for s in sites]
+    O = None
+    for x, t in zip(st, terms):
+        m = F.own_term_dense(sites, t, tables) * x
+        O = m if O is None else O + m
+    N = len(where)
+    alpha = ctx.num('alpha', cplx_ab)
+    beta = ctx.num('beta', cplx_ab) if N == 1 else ctx.real('beta', pos=True)  # beta ** (1/N): real positive for N > 1
+    if sorted(where) != list(range(min(where), max(where) + 1)):
+        try:
+            H.plus_identity(alpha, beta, sites=list(where))
+            ctx.fail('plus_identity with non-contiguous sites must raise NotImplementedError (documented in the source)')
+        except NotImplementedError:
+            ctx.prove(True, 'plus_identity with non-contiguous sites raises NotImplementedError')
+        return
+    R = H.plus_identity(alpha, beta, sites=list(where))
+    R.test_sanity()
+    ctx.prove_eq(F.mpo_dense_of(R), alpha * np.eye(O.shape[0]) + beta * O,
+                 'dense(plus_identity(alpha, beta, sites)) == alpha 1 + beta sum strength * own JW product')
+    ctx.prove_eq(F.mpo_dense_of(H), O + 0. * alpha, 'plus_identity: operand represents the same operator afterwards')
+    ctx.prove(R.get_IdL(0) is not None and R.get_IdR(L - 1) is not None and R.bc == 'finite', 'plus_identity: boundary markers of the result')
+
+
 def _dense_of_mps(psi):
     """state denoted by a tenpy MPS object (finite): S_0 G_0 S_1 ... S_L read from its stored tensors, forms and S"""
     L = psi.L
@@ -705,6 +761,12 @@ def CASES(tier, seed):
     add('plus_identity_case', 'plus_identity[spin,L=2,sites=[1],swapped]', L=2, D=3, where=[1], swap=True)
     add('plus_identity_case', 'plus_identity[spin,L=2,sites=[0,1]]', L=2, D=3, where=[0, 1])
     add('plus_identity_case', 'plus_identity[fermion N,L=2,sites=[1]]', kind='fermion', conserve='N', L=2, where=[1], tmpl='hop1')
+    for w in ([1], [0, 1], [1, 2], [0, 2]):  # N = 3 sites needs beta ** (1/3): outside the scalar engine
+        add('plus_identity_termlist_case', f'plus_identity[spin3 term list,range-2 coupling,sites={w}]', termset='spin3', where=w)
+    add('plus_identity_termlist_case', 'plus_identity[fermion3 term list,N,sites=[1]]', termset='fermion3', kind='fermion', conserve='N',
+        where=[1])
+    add('plus_identity_termlist_case', 'plus_identity[spin3 term list,symbolic strengths,sites=[1]]', termset='spin3', where=[1],
+        sym_strengths=True, cplx_ab=False)
     add('apply_naively_case', 'apply_naively[spin,L=3,no markers]', L=3, D=2)
     add('apply_naively_case', 'apply_naively[spin,L=2,markers swapped,forms]', L=2, D=3, markers=True, swap=True, forms=['A', 'B'])
     add('apply_naively_case', 'apply_naively[fermion N,L=3]', kind='fermion', conserve='N', L=3, markers=True)
@@ -755,6 +817,13 @@ def CASES(tier, seed):
         add('plus_identity_case', 'plus_identity[spin,L=3,sites=[1],real alpha beta]', heavy=True, L=3, D=3, where=[1], cplx_ab=False)
         add('plus_identity_case', 'plus_identity[fermion N,L=2,sites=[0,1]]', heavy=True, kind='fermion', conserve='N', L=2, where=[0, 1],
             tmpl='hop1')
+        for w in ([1], [2], [1, 2], [0, 1], [2, 3], [1, 3]):
+            add('plus_identity_termlist_case', f'plus_identity[spin4 term list,range-3 couplings,sites={w}]', heavy=True, termset='spin4',
+                where=w)
+        add('plus_identity_termlist_case', 'plus_identity[fermion4 term list,N,sites=[1,2]]', heavy=True, termset='fermion4',
+            kind='fermion', conserve='N', where=[1, 2])
+        add('plus_identity_termlist_case', 'plus_identity[fermion4 term list,parity,sites=[2]]', heavy=True, termset='fermion4',
+            kind='fermion', conserve='parity', where=[2])
         add('apply_naively_case', 'apply_naively[spin,L=4,markers]', heavy=True, L=4, D=2, markers=True, cp=[1, 0, 0, 1], cw=[0, 1, 1, 0])
         add('apply_naively_case', 'apply_naively[fermion N,L=4]', heavy=True, kind='fermion', conserve='N', L=4, markers=True)
         for which, combine, mr, i0 in [('one', False, False, 0), ('one', True, True, 2), ('two', True, True, 1), ('two', False, True, 2),
